@@ -29,6 +29,8 @@ THEOREMS = [
     'Nb.C03.proxyArray_eq',
     'Nb.C03.getitem_whole_eq_index_of_array',
     'Nb.C03.getitem_eq_index_of_array',
+    'Nb.C03.getitem_eq_index_of_array_default',
+    'Nb.C03.getitem_eq_index_of_array_total',
     'Nb.C03.npIndex_lt',
     'Nb.C03.reshape_same_elements',
     'Nb.C03.reshape_orig_counterexample',
@@ -38,6 +40,8 @@ THEOREMS = [
     'Nb.C03.afni_all_zero_no_scaling',
     'Nb.C03.parrec_whole_sequential',
     'Nb.C03.parrec_indices',
+    'Nb.C03.parrec_unscaled_eq',
+    'Nb.C03.minc_scale_alongside',
     'Nb.C03.ecat_array_frames',
     'Nb.C03.ecat_frames',
     'Nb.C03.ecat_frames_orig_counterexample',
@@ -49,8 +53,9 @@ ASSUMPTIONS = [
     'the scaling arithmetic is a POINTWISE function parameter of the model: NumPy float evaluation and dtype '
     'promotion (apply_read_scaling, raw*slope+inter, out*=slope; out+=inter) are external; the oracle checks them '
     'against the two-step IEEE evaluation with NumPy itself',
-    'getitem_eq_index_of_array for the fileslice path is stated relative to the C06 statement "fileslice = npIndex" '
-    '(hypothesis of the theorem; proved/validated under property C06)',
+    'getitem_eq_index_of_array_default/_total and parrec_unscaled_eq rest on the C06 theorem '
+    'Nb.C06.fileslice_threshold_eq_numpy (Props/C06.lean, imported); getitem_eq_index_of_array keeps the general '
+    'heuristic with "fileslice = npIndex" as hypothesis',
     'NumPy basic indexing (Nb.C06.npIndex / NdArr.index), Python slices (Basic/PySlice) and NumPy slice assignment '
     '(setAxis) are specifications, validated here through the correspondence run',
     'netCDF / HDF5 readers (nibabel.externals.netcdf, h5py), gzip/bz2/zstd, indexed_gzip, mmap are external',
